@@ -26,11 +26,12 @@ open EPV.Xsd
 /-- the declaration an element named `name` is attributed to by a particle that accepts it
 (§3.9.4.2): an element particle with that very name → its own (possibly local) declaration;
 a substitution-group member or an element wildcard → the global declaration with that name
-(for a lax wildcard without such a declaration: none, the element is not assessed by declaration) -/
+(for a lax wildcard without such a declaration, and for a `processContents="skip"` wildcard: none,
+the element is not assessed) -/
 def declOf (s : Schema) (p : Particle) (name : String) : Option ElemDecl :=
   match p with
   | .elem d _ => if d.name = name then some d else s.elements.find? (fun g => g.name == name)
-  | .any _ => s.elements.find? (fun g => g.name == name)
+  | .any _ skip => if skip then none else s.elements.find? (fun g => g.name == name)
 
 /-- the governing element declaration of a child named `name` under a parent whose governing type
 is `ctx` (`none` = the validation root) -/
@@ -38,11 +39,29 @@ inductive GovDecl (s : Schema) : Option Ty → String → ElemDecl → Prop
   /-- the validation root: a global declaration with the element's name -/
   | root (name : String) (d : ElemDecl) :
       d ∈ s.elements → d.name = name → GovDecl s none name d
-  /-- a particle of the content model of the parent's (complex, non-simple-content) type accepts
-  the name and attributes it to `d` -/
-  | particle (id : Nat) (ct : CType) (p : Particle) (name : String) (d : ElemDecl) :
+  /-- an element declaration of the content model of the parent's (complex, non-simple-content)
+  type has this very name -/
+  | declared (id : Nat) (ct : CType) (d : ElemDecl) (sub : List String) :
       s.ctypes[id]? = some ct → (∀ t, ct.content ≠ .simple t) →
-      p ∈ ct.particles → Particle.matches p name = true → declOf s p name = some d →
+      Particle.elem d sub ∈ ct.particles →
+      GovDecl s (some (.complex id)) d.name d
+  /-- no element declaration of the content model has this name, but it is a member of the
+  substitution group of an element particle: its own global declaration -/
+  | substitution (id : Nat) (ct : CType) (h : ElemDecl) (sub : List String) (name : String) (d : ElemDecl) :
+      s.ctypes[id]? = some ct → (∀ t, ct.content ≠ .simple t) →
+      (∀ d' sub', Particle.elem d' sub' ∈ ct.particles → d'.name ≠ name) →
+      Particle.elem h sub ∈ ct.particles → name ∈ sub →
+      declOf s (.elem h sub) name = some d →
+      GovDecl s (some (.complex id)) name d
+  /-- no element particle accepts the name, an element wildcard does: the global declaration with
+  that name (none for `processContents="skip"`).  XSD 1.1 Part 1 §3.8.6.4 (Unique Particle
+  Attribution): in a competition between an element particle and a wildcard the element particle
+  takes precedence. -/
+  | wildcard (id : Nat) (ct : CType) (ns : Option (List String)) (skip : Bool) (name : String) (d : ElemDecl) :
+      s.ctypes[id]? = some ct → (∀ t, ct.content ≠ .simple t) →
+      (∀ d' sub', Particle.elem d' sub' ∈ ct.particles → Particle.matches (.elem d' sub') name = false) →
+      Particle.any ns skip ∈ ct.particles → Particle.matches (.any ns skip) name = true →
+      declOf s (.any ns skip) name = some d →
       GovDecl s (some (.complex id)) name d
 
 /-- governing type definition and governing declaration of an element -/
@@ -74,10 +93,24 @@ inductive Typing (s : Schema) : Option Ty → Forest Unit → Forest Ann → Pro
 (§3.8.6.3 "Element Declarations Consistent" together with unique particle attribution) -/
 structure Consistent (s : Schema) : Prop where
   globalsUnique : ∀ d₁ ∈ s.elements, ∀ d₂ ∈ s.elements, d₁.name = d₂.name → d₁ = d₂
+  /-- Element Declarations Consistent (§3.8.6.3): two element particles of one content model with
+  the same name are the same declaration -/
   edc : ∀ (id : Nat) (ct : CType), s.ctypes[id]? = some ct →
-        ∀ p₁ ∈ ct.particles, ∀ p₂ ∈ ct.particles, ∀ name : String,
-        Particle.matches p₁ name = true → Particle.matches p₂ name = true →
-        declOf s p₁ name = declOf s p₂ name
+        ∀ d₁ sub₁ d₂ sub₂, Particle.elem d₁ sub₁ ∈ ct.particles → Particle.elem d₂ sub₂ ∈ ct.particles →
+        d₁.name = d₂.name → d₁ = d₂
+  /-- a name that is accepted by several element particles (substitution-group heads) is attributed to one
+  declaration by all of them -/
+  substConsistent : ∀ (id : Nat) (ct : CType), s.ctypes[id]? = some ct →
+        ∀ h₁ sub₁ h₂ sub₂ (name : String), Particle.elem h₁ sub₁ ∈ ct.particles →
+        Particle.elem h₂ sub₂ ∈ ct.particles →
+        Particle.matches (.elem h₁ sub₁) name = true → Particle.matches (.elem h₂ sub₂) name = true →
+        declOf s (.elem h₁ sub₁) name = declOf s (.elem h₂ sub₂) name
+  /-- … and so do all wildcards that accept a name (e.g. not one `skip` and one `lax`) -/
+  wildConsistent : ∀ (id : Nat) (ct : CType), s.ctypes[id]? = some ct →
+        ∀ ns₁ sk₁ ns₂ sk₂ (name : String), Particle.any ns₁ sk₁ ∈ ct.particles →
+        Particle.any ns₂ sk₂ ∈ ct.particles →
+        Particle.matches (.any ns₁ sk₁) name = true → Particle.matches (.any ns₂ sk₂) name = true →
+        declOf s (.any ns₁ sk₁) name = declOf s (.any ns₂ sk₂) name
 
 /-- reduced validity: every element of the forest has a governing type (content-model order and
 occurrence, and the lexical validity of simple content, are not part of the reduction) -/
@@ -118,6 +151,60 @@ def classOf (b : B) : B := if b.isSpecial then .untypedAtomic else b
 /-- an atomic value is an instance of builtin `T` (XPath 3.1 §2.5.5.2: its type annotation is `T`
 or derived from it) -/
 def _root_.EPV.Xsd.Atom.instanceOf (a : Atom) (T : B) : Bool := a.cls.derives T
+
+/-! ## operators on typed nodes (XPath 3.1 §3.5 arithmetic, §3.7.2 general comparison, on the
+atomized operand: the operand of `+` / `=` is the node's typed value)
+
+Only the fragment the check uses: `$v + 1`, `$v = 7`, `$v = true()`, `$v = 'abc'` for the integer
+family, `xs:decimal`, `xs:boolean` and the string family.  Results: `integer=…`, `decimal=…`,
+`true`/`false`, `err` (XPTY0004: the operand type does not admit the operator), `n/a` (outside the
+fragment: empty, `xs:double`, `xs:untypedAtomic`, dates, `xs:anyURI`). -/
+
+def isIntClsB (b : B) : Bool := b.intBounds.isSome
+def isStrCls (b : B) : Bool := b == .string || b == .normalizedString || b == .token
+def outsideOps (b : B) : Bool :=
+  b == .double || b == .untypedAtomic || b.isDateLike || b == .anyURI || b.isSpecial
+
+/-- canonical decimal text + 1 -/
+def decPlus1 (c : String) : String :=
+  let (neg, r) := splitSign c.toList
+  let ip := r.takeWhile (· != '.')
+  let fp := (r.dropWhile (· != '.')).drop 1
+  -- implementations need only support 18 decimal digits (XSD 1.1 Part 2 §5.4): beyond → outside
+  if (ip ++ fp).length > 18 then "n/a" else
+  match natOfDigits? (ip ++ fp) with
+  | none => "?"
+  | some m =>
+    let scale := fp.length
+    let v : Int := (if neg then - (m : Int) else (m : Int)) + (10 ^ scale : Nat)
+    let digits := (toString v.natAbs).toList
+    let digits := List.replicate (scale + 1 - digits.length) '0' ++ digits
+    canonDec (v < 0) (digits.take (digits.length - scale)) (digits.drop (digits.length - scale))
+
+def opPlus1 (vs : List Atom) : String :=
+  match vs with
+  | [] => "n/a"
+  | [a] =>
+    if outsideOps a.cls then "n/a"
+    else if isIntClsB a.cls then
+      match intOfLex? a.val with
+      | some v => "integer=" ++ toString (v + 1)
+      | none => "?"
+    else if a.cls == .decimal then (if a.val.startsWith "py:" || decPlus1 a.val == "n/a" then "n/a" else "decimal=" ++ decPlus1 a.val)
+    else "err"
+  | _ => if vs.any (fun a => outsideOps a.cls) then "n/a" else "err"
+
+/-- `$v = lit` where `ok a` says the atom's type admits the comparison and `eq a` that it is equal -/
+def opEq (ok eq : Atom → Bool) (vs : List Atom) : String :=
+  if vs.isEmpty then "n/a"      -- atomization of an empty typed value raises FOTY0012 in the engine: outside the fragment
+  else if vs.any (fun a => outsideOps a.cls) then "n/a"
+  else if vs.all ok then (if vs.any eq then "true" else "false")
+  else "err"
+
+def opEq7 (vs : List Atom) : String :=
+  opEq (fun a => (isIntClsB a.cls || a.cls == .decimal) && !a.val.startsWith "py:") (fun a => a.val == "7") vs
+def opEqTrue (vs : List Atom) : String := opEq (fun a => a.cls == .boolean) (fun a => a.val == "true") vs
+def opEqStr (lit : String) (vs : List Atom) : String := opEq (fun a => isStrCls a.cls) (fun a => a.val == lit) vs
 
 /-! ## typed values -/
 
